@@ -333,4 +333,55 @@ theorem exists_maximal (k : Nat) : ∀ s : St, mu s ≤ k →
           · exact Or.inl hp
           · exact hall e' he'
 
+set_option hygiene false in
+macro "nopika" x:term : tactic => `(tactic| (
+  simp only [step]
+  by_cases hx : $x < s.n
+  · rcases h $x hx with ⟨h1, _, h3, _⟩ | ⟨_, _, _, _, h5⟩
+    · rcases h3 with ⟨h3, _⟩ | ⟨h3, _⟩ <;> simp [h1, h3, hx]
+    · rcases h5 with ⟨h5, h6, h7⟩ | ⟨h5, h6⟩
+      · rcases h7 with h7 | h7 <;> simp [h5, h6, h7, hx]
+      · simp [h5, h6, hx]
+  · simp [hx]))
+
+theorem no_pika_step (s : St) (h : ∀ x, x < s.n → Finished (s.op x) ∨ AwaitsMpi s (s.op x))
+    (e : Ev) (he : pika e = true) : step s e = none := by
+  cases e with
+  | sig a x => nopika x
+  | reg a x => nopika x
+  | gacInc a x => nopika x
+  | ifInc a x v => nopika x
+  | enq a x => nopika x
+  | addv a x => nopika x
+  | q2v a x => nopika x
+  | deq a x e => nopika x
+  | ifDec a x v => nopika x
+  | call a x => nopika x
+  | cb a x e => nopika x
+  | ret a x => nopika x
+  | gacDec a x => nopika x
+  | woke a x => nopika x
+  | _ => simp [pika] at he
+
+/-- converse of `final_op`: a state all of whose operations are finished or wait for MPI is maximal -/
+theorem maximal_of_final (s : St) (h : ∀ x, x < s.n → Finished (s.op x) ∨ AwaitsMpi s (s.op x)) :
+    Maximal s := by
+  intro e he
+  refine ⟨no_pika_step s h e he, ?_⟩
+  intro a s1 hl
+  obtain ⟨h1, h2, _, _⟩ := neutral_op s s1 (.lock a) rfl hl
+  have hinst : s1.installed = s.installed := by
+    simp only [step] at hl
+    split at hl <;> simp at hl
+    subst hl; rfl
+  apply no_pika_step s1 _ e he
+  intro x hx
+  rw [h2] at hx
+  rw [h1]
+  rcases h x hx with hf | hw
+  · exact Or.inl hf
+  · right
+    simp only [AwaitsMpi, hinst] at hw ⊢
+    exact hw
+
 end PikaVerif.Mpi
